@@ -64,6 +64,16 @@ def corpus_cases():
     yield 'rdp', np.array([[0, 3], [1, 2], [2, 1], [3, 0]], float), dict(t=0.01, dist='perpendicular', cost='rpd')
     yield 'grdp', np.array([[0, 4], [1, 1], [2, 0.5], [3, 0.25], [5, 0]], float), dict(t=0.01, dist='perpendicular', cost='rmspe', order='area')
     yield 'min_point_rdp', np.array([[0, 4], [1, 1], [2, 0.5], [3, 0.25], [5, 0]], float), dict(m=4, ts=[0.001, 0.1])
+    # ramps reaching exactly y = 0 with non-dyadic values: all distances below eps while relative-error costs stay rejecting
+    ramp3 = np.array([[10.0, 2.22], [10.1, 1.11], [10.2, 0.0]], float)
+    hinge = np.array([[10.0, 5.0], [10.1, 3.9], [10.2, 2.22], [10.3, 1.11], [10.4, 0.0]], float)
+    for w in (ramp3, hinge):
+        for cost in ('smape', 'rpd', 'rmspe'):
+            for order in ('triangle', 'area', 'segment'):
+                yield 'grdp', w, dict(t=0.01, dist='shortest', cost=cost, order=order)
+            yield 'mp_grdp', w, dict(t=0.01, m=len(w), dist='perpendicular', cost=cost, order='segment')
+            yield 'rdp', w, dict(t=0.01, dist='shortest', cost=cost)
+        yield 'min_point_rdp', w, dict(m=len(w), ts=[0.01, 0.001])
 
 
 def run(ctx):
